@@ -16,6 +16,8 @@ EXTENDS Integers, Sequences, FiniteSets, TLC
 
 CONSTANTS Addrs,      \* account addresses used in signatures
           Refs,       \* reference ids
+          VarKeys,    \* other store keys a signer may publish under: strings that are not the hash of any reference id
+                      \* (the harness concretises them adversarially: the hash of a reference id in upper case, with a trailing space, ...)
           Links,      \* payload link values
           Keys,       \* signing keys
           KeyType,    \* Keys -> {"ecdsa", "rsa"}
@@ -24,7 +26,7 @@ CONSTANTS Addrs,      \* account addresses used in signatures
           Existing,   \* addresses that already have an account (for CreateAccount)
           Quirks
 
-VARIABLES links,   \* reference id -> link or "none"  (the store key is H(reference id))
+VARIABLES links,   \* reference id or other key -> link or "none"  (the store key of a reference id is H(reference id))
           sigs,    \* <<address, reference id>> -> record or NoSig   (the store key is H(address : reference id))
           accts,   \* address -> [k: "none" | "orig" (pre-existing, untouched) | "created", pk]
           msgs, act
@@ -32,6 +34,7 @@ VARIABLES links,   \* reference id -> link or "none"  (the store key is H(refere
 vars == <<links, sigs, accts, msgs, act>>
 
 None == "none"
+LinkKeys == Refs \cup VarKeys
 NoSig == [present |-> FALSE]
 NoAcc == [k |-> "none", pk |-> ""]
 AlgOf(t) == IF t = "ecdsa" THEN "ecdsaWithSha256" ELSE "sha256WithRsaEncryption"
@@ -47,11 +50,11 @@ Valid(rec, a, r, l) ==
   /\ rec.over = <<a, r, l>>
 
 Init ==
-  /\ links = [r \in Refs |-> None] /\ sigs = [x \in Addrs \X Refs |-> NoSig]
+  /\ links = [r \in LinkKeys |-> None] /\ sigs = [x \in Addrs \X Refs |-> NoSig]
   /\ accts = [a \in Addrs |-> IF a \in Existing THEN [k |-> "orig", pk |-> ""] ELSE NoAcc]
   /\ msgs = 0 /\ act = [name |-> "init"]
 
-\* MsgPublishReferencePayloadLink(key = H(r), value): write once
+\* MsgPublishReferencePayloadLink(key, value): write once per key string; the key is chosen by the signer (H(r) or anything else)
 Publish(r, l) ==
   /\ msgs < MaxMsgs /\ act.name # "init"
   /\ LET ok == links[r] = None IN
@@ -106,7 +109,7 @@ ViewNoAct == <<links, sigs, accts, msgs>>
 
 (* ---- properties ---- *)
 \* C15: a published link is never overwritten or removed
-WriteOnce == [][\A r \in Refs : links[r] # None => links'[r] = links[r]]_vars
+WriteOnce == [][\A r \in LinkKeys : links[r] # None => links'[r] = links[r]]_vars
 \* C15: verification reports valid exactly when the stored signature verifies over address : reference : stored link, and echoes the stored fields
 VerifySound == act.name = "verify" =>
    LET rec == sigs[<<act.a, act.r>>] IN
